@@ -466,6 +466,16 @@ UNITS = [
       defines=["STORE_SHAPE=4", "STORE_RECV_CONTRACT", "STORE_CHOICE"], unwindset={"rtr_sync_receive_and_store_pdus.%d" % i: 2 for i in range(9)}, unwind_functions={"rtr_sync_receive_and_store_pdus": 3, "strlen": 70},
       native=None, link=PKT_LINK, timeout=2400, object_bits=13, mem_gb=40,
       stubs=["lrtr_malloc", "lrtr_realloc", "lrtr_free", "pfx_table_*", "spki_table_*", "lrtr_dbg", "pthread_setcancelstate"]),
+    U(id="store_choice2", props=["C06"], file="units/store.c", entry="h_store", tier="lab",
+      enforce=[], checked_by_assertions=["rtr_sync_receive_and_store_pdus"], need_classes=["assertion", "precondition"],
+      replace=["rtr_receive_pdu/rtr_receive_pdu__store", "rtr_send_error_pdu_from_host", "rtr_handle_error_pdu/rtr_handle_error_pdu__client", "verif_fmt",
+               "rtr_store_prefix_pdu/rtr_store_prefix_pdu__choice", "rtr_store_router_key_pdu/rtr_store_router_key_pdu__choice",
+               "rtr_update_pfx_table/rtr_update_pfx_table__choice", "rtr_undo_update_pfx_table/rtr_undo_update_pfx_table__choice",
+               "rtr_update_spki_table/rtr_update_spki_table__choice", "rtr_undo_update_spki_table/rtr_undo_update_spki_table__choice"],
+      kind="bounded: two payload PDUs of any types (IPv4 / IPv6 prefix or router key) + terminal event; buffering, apply and undo by contract",
+      defines=["STORE_SHAPE=4,4", "STORE_RECV_CONTRACT", "STORE_CHOICE"], unwindset={"rtr_sync_receive_and_store_pdus.%d" % i: 3 for i in range(9)}, unwind_functions={"rtr_sync_receive_and_store_pdus": 4, "strlen": 70},
+      native=None, link=PKT_LINK, timeout=2400, object_bits=13, mem_gb=40,
+      stubs=["lrtr_malloc", "lrtr_realloc", "lrtr_free", "pfx_table_*", "spki_table_*", "lrtr_dbg", "pthread_setcancelstate"]),
     U(id="store_E", props=["C03", "C05", "C06", "C13", "C14", "C17"], file="units/store.c", entry="h_store", tier="thorough",
       enforce=[], plain=True, remove_bodies=["rtr_send_error_pdu_from_host"], allow_undefined=True, checked_by_assertions=["rtr_sync_receive_and_store_pdus", "rtr_receive_pdu", "rtr_update_pfx_table", "rtr_undo_update_pfx_table",
                                          "rtr_update_spki_table", "rtr_undo_update_spki_table", "rtr_store_prefix_pdu", "rtr_store_router_key_pdu"], need_classes=["assertion"],
